@@ -11,7 +11,7 @@ from simkit.kernel import HarnessError
 
 ID = "C20"
 LEVEL = "fault_enumeration"
-RUNS = {"quick": 600, "thorough": 20000}
+RUNS = {"quick": 6000, "thorough": 100000}
 CHUNK = 10
 RULE = ("for each seeded statement sequence (TripleStream / QuadStream / GraphStream of both integrations, driven "
         "statement by statement) EVERY (position, slot in {s,p,o,g,nested}, cause) at which a statement can be made "
